@@ -76,6 +76,10 @@ def run(ctx) -> None:
     # the (unfinished) .struct directive: every form must still end with a result or an error
     bases += [".struct point {\nbyte x\nword y\n}\n", ".struct header { dword checksum }\n.db 1\n", ".struct p { x }\n",
               ".struct p {\n byte a b\n}\nnop\n", ".struct q {\n}\n", ".struct {\nlong z\n}\n"]
+    # macros that apply themselves (once, twice; unconditionally, under a condition that never turns false)
+    bases += ["go := 1\n.macro spread() {\n.if go {\nspread()\nspread()\n}\n}\nspread()\n",
+              ".macro once() {\n.db 1\nonce()\n}\nonce()\n", "k := 1\n.macro two(a) {\n.if k {\ntwo(a + 1)\ntwo(a)\n}\n}\n*=0x008000\ntwo(0)\n",
+              ".macro ping() {\npong()\n}\n.macro pong() {\nping()\nping()\n}\nping()\n"]
     for b in bases:
         texts += [b] + mutations(b, rnd, not ctx.quick)
     texts = list(dict.fromkeys(texts))
@@ -88,6 +92,17 @@ def run(ctx) -> None:
             src = "*=0x008000\n.table 't.tbl'\n.text '" + "".join(t) + "'\n"
             texts.append(src)
             tasks.append({"text": src, "files": tbl, "scan_budget": 40 * (len(src) + 2) ** 2 + 1001, "parse_budget_base": 1001})
+    # .text several scopes below the .table (or with no table at all); files that include themselves / each other
+    deep = ["*=0x008000\n.table 't.tbl'\n.scope a {\n.macro m() {\n{\n.text 'AB'\n}\n}\nm()\n}\n",
+            "*=0x008000\n.scope a {\n{\n.macro m() {\n.text 'AB'\n}\nm()\n}\n}\n",
+            "*=0x008000\n.table 't.tbl'\n{\n{\n{\n.text 'A'\n}\n}\n}\n"]
+    for src in deep:
+        texts.append(src)
+        tasks.append({"text": src, "files": tbl, "scan_budget": 40 * (len(src) + 2) ** 2 + 1001, "parse_budget_base": 1001})
+    cyc = {"selfinc.s": {"text": ".db 1\n.include 'selfinc.s'\n"}, "ping.s": {"text": ".include 'pong.s'\n"}, "pong.s": {"text": "nop\n.include 'ping.s'\n"}}
+    for src in ("*=0x008000\n.include 'selfinc.s'\n", "*=0x008000\n.include 'ping.s'\n", "*=0x008000\n{\n.include 'pong.s'\n}\n"):
+        texts.append(src)
+        tasks.append({"text": src, "files": cyc, "scan_budget": 40 * (len(src) + 2) ** 2 + 1001, "parse_budget_base": 1001})
     patch = [80, 65, 84, 67, 72, 0, 0x12, 0x34, 0, 3, 1, 2, 3, 0, 0x20, 0, 0, 0, 0, 4, 9, 0x01, 0x80, 0x00, 0, 1, 7, 69, 79, 70]
     for cut in range(len(patch) + 1):
         for src in ("*=0x008000\n.db 1\n.include_ips 'p.ips', 0\n.db 2\n",
